@@ -1,0 +1,179 @@
+/*
+ * Verification hooks. Compiled only with `--cfg starlark_verif`.
+ *
+ * A thread-local event sink (sequential protocols), a process-global sink with an
+ * atomic sequence number (allocator events, which cross threads), and knobs that let
+ * a test harness force garbage collections at chosen safepoints.
+ *
+ * With no sink installed and no schedule set, every function here is a no-op
+ * and the evaluator behaves exactly as without the hooks.
+ */
+
+use std::cell::Cell;
+use std::cell::RefCell;
+use std::sync::Mutex;
+use std::sync::atomic::AtomicBool;
+use std::sync::atomic::AtomicU64;
+use std::sync::atomic::Ordering;
+
+/// One recorded event: action name plus up to three integer arguments.
+#[derive(Clone, Debug)]
+pub struct Ev {
+    pub a: &'static str,
+    pub x: i64,
+    pub y: i64,
+    pub z: i64,
+    pub seq: u64,
+    pub tid: u64,
+}
+
+/// How `possible_gc` behaves on this thread.
+#[derive(Clone, Debug)]
+pub enum GcMode {
+    /// The evaluator's own threshold rule.
+    Default,
+    /// Never collect.
+    Never,
+    /// Collect at every `k`-th safepoint (1-based count).
+    Every(u64),
+    /// Collect exactly at the listed safepoint numbers (1-based).
+    At(Vec<u64>),
+}
+
+thread_local! {
+    static SINK: RefCell<Option<Vec<Ev>>> = const { RefCell::new(None) };
+    static GC_MODE: RefCell<GcMode> = const { RefCell::new(GcMode::Default) };
+    static SAFEPOINTS: Cell<u64> = const { Cell::new(0) };
+    static COLLECTIONS: Cell<u64> = const { Cell::new(0) };
+    static TID: Cell<u64> = const { Cell::new(0) };
+}
+
+static GLOBAL_ON: AtomicBool = AtomicBool::new(false);
+static GLOBAL_SEQ: AtomicU64 = AtomicU64::new(0);
+static GLOBAL_SINK: Mutex<Vec<Ev>> = Mutex::new(Vec::new());
+static NEXT_TID: AtomicU64 = AtomicU64::new(1);
+static POISON: AtomicBool = AtomicBool::new(true);
+
+fn tid() -> u64 {
+    TID.with(|t| {
+        if t.get() == 0 {
+            t.set(NEXT_TID.fetch_add(1, Ordering::Relaxed));
+        }
+        t.get()
+    })
+}
+
+/// Start recording thread-local events (clears anything recorded so far).
+pub fn start_recording() {
+    SINK.with(|s| *s.borrow_mut() = Some(Vec::new()));
+}
+
+/// Stop recording and return what was recorded.
+pub fn take_events() -> Vec<Ev> {
+    SINK.with(|s| s.borrow_mut().take().unwrap_or_default())
+}
+
+/// Record a thread-local event.
+#[inline]
+pub fn emit(a: &'static str, x: i64, y: i64, z: i64) {
+    SINK.with(|s| {
+        if let Ok(mut s) = s.try_borrow_mut() {
+            if let Some(v) = s.as_mut() {
+                let seq = v.len() as u64;
+                v.push(Ev {
+                    a,
+                    x,
+                    y,
+                    z,
+                    seq,
+                    tid: 0,
+                });
+            }
+        }
+    });
+}
+
+/// Start recording process-global events.
+pub fn global_start() {
+    GLOBAL_SINK.lock().unwrap().clear();
+    GLOBAL_ON.store(true, Ordering::SeqCst);
+}
+
+/// Stop recording process-global events and return them sorted by sequence number.
+pub fn global_take() -> Vec<Ev> {
+    GLOBAL_ON.store(false, Ordering::SeqCst);
+    let mut v = std::mem::take(&mut *GLOBAL_SINK.lock().unwrap());
+    v.sort_by_key(|e| e.seq);
+    v
+}
+
+/// Record a process-global event. The sequence number is taken when called.
+#[inline]
+pub fn global_emit(a: &'static str, x: i64, y: i64, z: i64) {
+    if GLOBAL_ON.load(Ordering::Relaxed) {
+        let tid = tid();
+        let mut g = GLOBAL_SINK.lock().unwrap();
+        let seq = GLOBAL_SEQ.fetch_add(1, Ordering::SeqCst);
+        g.push(Ev {
+            a,
+            x,
+            y,
+            z,
+            seq,
+            tid,
+        });
+    }
+}
+
+/// Set GC schedule for this thread; resets the safepoint counter.
+pub fn set_gc_mode(m: GcMode) {
+    GC_MODE.with(|g| *g.borrow_mut() = m);
+    SAFEPOINTS.with(|c| c.set(0));
+    COLLECTIONS.with(|c| c.set(0));
+}
+
+/// Number of safepoints seen / collections forced since `set_gc_mode`.
+pub fn gc_counters() -> (u64, u64) {
+    (SAFEPOINTS.with(|c| c.get()), COLLECTIONS.with(|c| c.get()))
+}
+
+/// Called first thing in `possible_gc`. `None`: use the default rule.
+/// `Some(force)`: the schedule decides.
+pub fn safepoint() -> Option<bool> {
+    let n = SAFEPOINTS.with(|c| {
+        c.set(c.get() + 1);
+        c.get()
+    });
+    let r = GC_MODE.with(|g| match &*g.borrow() {
+        GcMode::Default => None,
+        GcMode::Never => Some(false),
+        GcMode::Every(k) => Some(*k != 0 && n % *k == 0),
+        GcMode::At(v) => Some(v.contains(&n)),
+    });
+    emit(
+        "safepoint",
+        n as i64,
+        match r {
+            None => -1,
+            Some(false) => 0,
+            Some(true) => 1,
+        },
+        0,
+    );
+    if r == Some(true) {
+        COLLECTIONS.with(|c| c.set(c.get() + 1));
+    }
+    r
+}
+
+/// Enable or disable arena poisoning (on by default).
+pub fn set_poison(on: bool) {
+    POISON.store(on, Ordering::SeqCst);
+}
+
+/// Overwrite released arena memory so that a dangling pointer is never silently valid.
+pub fn poison_bytes(ptr: *mut u8, len: usize) {
+    if POISON.load(Ordering::Relaxed) && len != 0 {
+        unsafe { std::ptr::write_bytes(ptr, 0xA5, len) };
+    }
+}
